@@ -27,7 +27,8 @@ Mandatory == {"command", "env", "plugins", "matrix", "repository_url"}
 EnvField(n) == "env::" \o n
 
 (* ---------------- canonical content ---------------- *)
-SrcCanon == [short |-> "docker", canon |-> "docker", suffixed |-> "docker-suffixed", other |-> "local", other2 |-> "local2"]
+SrcCanon == [short |-> "docker", canon |-> "docker", suffixed |-> "docker-suffixed", other |-> "local", other2 |-> "local2",
+             short_sref |-> "docker_sref", org_sref |-> "docker_sref", canon_sref |-> "docker_sref", short_sref2 |-> "docker_sref2"]   \* refs holding a slash
 CfgCanon == [null |-> "NONE", empty |-> "NONE", emptylist |-> "NONE", kv |-> "kv", kw |-> "kw", deep_v |-> "deep_v", deep_w |-> "deep_w",
              num1 |-> "num1", str1 |-> "str1", bfalse |-> "bfalse", zero |-> "zero", emptystr |-> "emptystr",
              \* an empty mapping, an empty list and null NESTED inside a config are three different values (only a config that is
